@@ -19,6 +19,8 @@ pub mod font;
 pub mod any;
 pub mod encoding;
 pub mod build;
+#[cfg(pdf_verif)]
+pub mod verif;
 
 // mod content;
 pub mod enc;
